@@ -218,6 +218,16 @@ def one_store(ctx, spec, work, tag, need_partitions=1, light=False):
 
 
 def run(ctx):
+    # a decompressor let loose on a damaged frame may try to allocate whatever the garbage header says: cap the address space
+    # so that this surfaces as MemoryError (an error, which is what the property asks for) instead of the OOM killer
+    try:
+        import resource
+        soft, hard = resource.getrlimit(resource.RLIMIT_AS)
+        cap = 12 * 2**30
+        if soft == resource.RLIM_INFINITY or soft > cap:
+            resource.setrlimit(resource.RLIMIT_AS, (cap, hard))
+    except Exception:  # noqa: BLE001
+        pass
     work = common.scratch_dir("c18-")
     try:
         for k in range(4 if ctx.thorough else 1):
